@@ -115,6 +115,9 @@ SPECS = [
     mk("Exp", lambda: NL.Exp(), NL.Exp, lo=0.0),
     mk("Exp4d", lambda: NL.Exp(), NL.Exp, shape=(2, 1, 2, 1), lo=0.0),
     mk("Tanh", lambda: NL.Tanh(), NL.Tanh, lo=-1.0, hi=1.0),
+    mk("Exp1d", lambda: NL.Exp(), NL.Exp, shape=(3,), lo=0.0),
+    mk("Tanh1d", lambda: NL.Tanh(), NL.Tanh, shape=(2,), lo=-1.0, hi=1.0),
+    mk("LeakyReLU1d", lambda: NL.LeakyReLU(), NL.LeakyReLU, shape=(2,)),
     mk("LogTanh", lambda: NL.LogTanh(cut_point=1), NL.LogTanh, shape=(1, 2), constrain=_logtanh_cut),
     mk("LogTanh2", lambda: NL.LogTanh(cut_point=2), NL.LogTanh, shape=(1, 2), constrain=_logtanh_cut),
     mk("LogTanh_1x1", lambda: NL.LogTanh(cut_point=1), NL.LogTanh, shape=(1, 1), constrain=_logtanh_cut),
